@@ -15,7 +15,7 @@ def compile_one(defs):
 def run(tier, a=None):
     res = runner.Result('C19', tier)
     known = runner.load_known('C19')
-    groups = GROUPS if tier != 'quick' else [g for g in GROUPS if g[0] in ('SO2', 'SE2', 'SO3', 'SE3', 'SGal3', 'R1', 'Bundle<SO2,SE3,R3>')]
+    groups = GROUPS if tier != 'quick' else [g for g in GROUPS if g[0] in ('SO2', 'SE2', 'SO3', 'SE3', 'SE_2_3', 'SGal3', 'R1', 'Bundle<SO2,SE3,R3>')]
     scalars = ['double', 'float']; storages = [0, 1, 2]
     cells = [(gn, gd, sc, st) for gn, gd in groups for sc in scalars for st in storages]
     def cell(c):
